@@ -437,7 +437,7 @@ func probeF12(w *world) bool {
 func run(t *tr.W, thorough bool) {
 	budget := tr.EnvInt("VERIF_BUDGET", 1)
 	if thorough {
-		budget *= 8
+		budget *= 4
 	}
 	r := tr.Rng(303)
 	w := newWorld(t, r, nil)
